@@ -282,9 +282,238 @@ def replay(pid, rec):
     return None
 
 
+# ---------------------------------------------------------------------------------------
+# C11(b): bundled clients with generated policies
+
+def policy_call(legal, n_calls, ints):
+    """A bidding policy: a deterministic function of the client's own view (legal set, number of calls so far)
+    and of the drawn integers."""
+    legal = sorted(legal)
+    k = ints[n_calls % len(ints)]
+    if n_calls >= 24 or k % 100 < 40:
+        return A.PASS
+    if k % 100 < 55:
+        for c in (A.X, A.XX):
+            if c in legal:
+                return c
+    bids = [c for c in legal if c < 35]
+    if not bids:
+        return A.PASS
+    return bids[min((k // 100) % 4, len(bids) - 1)]
+
+
+def bundled_clients(scenario, policy, records):
+    from bridge_env.network_bridge import client as CM
+    from bridge_env.network_bridge.bidding_system import BiddingSystem
+    from bridge_env.network_bridge.playing_system import PlayingSystem
+    from vf.sim.session import ADDR
+
+    class Bids(BiddingSystem):
+        def __init__(self, seat):
+            self.seat = seat
+
+        def bid(self, hand, env):
+            legal = {i for i in range(38) if env.available_bid[i] == 1}
+            return be.BID[policy_call(legal, len(env.bid_history), policy['bids'][self.seat])]
+
+    class Plays(PlayingSystem):
+        def __init__(self, seat):
+            self.seat = seat
+
+        def play(self, hand, env):
+            k = policy['plays'][self.seat][len(env.used_cards) % len(policy['plays'][self.seat])]
+            follow = sorted(env.current_available_cards(hand))
+            pool = follow if k % 8 else sorted(hand)        # 1 in 8: any card of the hand (a revoke if possible)
+            return pool[(k // 8) % len(pool)]
+
+    class RecClient(CM.Client):
+        def bidding_phase(self):
+            c = super().bidding_phase()
+            records[self.seat_idx].append({'contract': c, 'env': None})
+            return c
+
+    def make(seat):
+        def fn():
+            cl = RecClient(player=be.SEAT[seat], team_name=scenario['teams'][seat % 2], bidding_system=Bids(seat),
+                           playing_system=Plays(seat), ip_address=ADDR[0], port=ADDR[1])
+            cl.seat_idx = seat
+            with cl:
+                cl.run()
+            records[seat].append('returned')
+        return fn
+    return [make(s) for s in range(4)]
+
+
+def run_bundled(scenario, schedule, policy):
+    """Runs a session with four bundled Clients; returns (result, records)."""
+    from bridge_env.network_bridge import client as CM
+    records = {s: [] for s in range(4)}
+    real = CM.ObservedPlayingPhase
+
+    def recording_phase(contract, player, hand):
+        env = real(contract=contract, player=player, hand=hand)
+        rec = records[be.SEAT_IDX[player]]
+        if rec and isinstance(rec[-1], dict):
+            rec[-1]['env'] = env
+        return env
+    CM.ObservedPlayingPhase = recording_phase
+    try:
+        r = run_case(scenario, schedule, clients=bundled_clients(scenario, policy, records))
+    finally:
+        CM.ObservedPlayingPhase = real
+    return r, records
+
+
+def bundled_problems(scenario, r, records):
+    out = []
+    if r.outcome.status == 'deadlock':
+        return [('session with four bundled clients deadlocked', {'blocked': r.outcome.detail})]
+    if r.server_exc is not None:
+        # the server did not complete: nothing is demanded of the clients, but a legal policy must not make it fail
+        return [('table manager raised in a session played by the bundled client', {'exception': repr(r.server_exc)[:300], 'tb': (r.server_tb or '')[-500:]})]
+    for s, e in sorted(r.client_exc.items()):
+        out.append(('the bundled client failed in a session the server completed', {'seat': A.SEATS[s], 'exception': repr(e)[:300]}))
+    if out:
+        return out
+    try:
+        logs = json.loads(r.output_text)['logs']
+    except Exception as e:  # noqa
+        return [('log file is not a complete JSON document', {'error': repr(e)[:200]})]
+    for s in range(4):
+        rec = records[s]
+        if not rec or rec[-1] != 'returned':
+            out.append(('the bundled client did not return from a session the server completed', {'seat': A.SEATS[s]}))
+            continue
+        boards = [x for x in rec if isinstance(x, dict)]
+        if len(boards) != len(logs):
+            out.append(('the bundled client followed a different number of boards than the server logged', {'seat': A.SEATS[s], 'client': len(boards), 'server': len(logs)}))
+            continue
+        for i, (b, lg) in enumerate(zip(boards, logs)):
+            c = b['contract']
+            ctext = 'Passed_out' if c.is_passed_out() else A.call_name(be.BID_IDX[c.final_bid]) + ('', 'X', 'XX')[be.dbl_status(c)]
+            cdecl = None if c.declarer is None else A.SEATS[be.SEAT_IDX[c.declarer]]
+            if ctext != lg['contract'] or cdecl != lg['declarer']:
+                out.append(("client's contract/declarer differs from the table manager's", {'seat': A.SEATS[s], 'board': i, 'client': [ctext, cdecl], 'server': [lg['contract'], lg['declarer']]}))
+                continue
+            if c.vul is not be.VUL[lg['vulnerability']]:
+                out.append(("client's vulnerability differs from the table manager's", {'seat': A.SEATS[s], 'board': i}))
+            if lg['play_history'] is None:
+                continue
+            env = b['env']
+            if env is None:
+                out.append(('client never followed the play of a played board', {'seat': A.SEATS[s], 'board': i}))
+                continue
+            hist = [{'leader': A.SEATS[be.SEAT_IDX[t.leader]], 'cards': [P.card_name(be.CARD_IDX[x]) for x in t.cards]} for t in env.playing_history.history]
+            if hist != lg['play_history']:
+                out.append(("client's trick history differs from the table manager's", {'seat': A.SEATS[s], 'board': i, 'client': hist[:2], 'server': lg['play_history'][:2]}))
+            tr = env.taken_tricks[c.declarer.pair]
+            if tr != lg['taken_trick'] or not env.has_done() or env.trick_num != 14:
+                out.append(("client's trick count / end of play differs from the table manager's", {'seat': A.SEATS[s], 'board': i, 'client': tr, 'server': lg['taken_trick'], 'trick_num': env.trick_num}))
+    return out
+
+
+POLICY = st.fixed_dictionaries({'bids': st.lists(st.lists(st.integers(0, 999), min_size=3, max_size=8), min_size=4, max_size=4),
+                                'plays': st.lists(st.lists(st.integers(0, 999), min_size=5, max_size=13), min_size=4, max_size=4)})
+
+
+@st.composite
+def bundled_scenario(draw, max_boards=3):
+    n = draw(st.integers(1, max_boards))
+    boards = [{'id': draw(GS.ID_TEXT), 'dealer': draw(st.integers(0, 3)), 'vul': draw(st.sampled_from(['None', 'NS', 'EW', 'Both'])),
+               'owner': draw(PL.DEAL), 'dda': None, 'calls': [], 'cards': []} for _ in range(n)]
+    return {'boards': boards, 'teams': [draw(GS.TEAM), draw(GS.TEAM)], 'arrival': draw(st.permutations([0, 1, 2, 3])), 'fmt': {}}
+
+
 def plan_c11(tier):
-    return []
+    n, per = (8, 60) if tier == 'quick' else (12, 2500)
+    return [{'kind': 'bundled', 'n': per, 'max_boards': 3 if tier == 'quick' else 5} for _ in range(n)]
+
+
+def check_bundled(scenario, schedule, policy, stats=None, completion_only=False):
+    r, records = run_bundled(scenario, schedule, policy)
+    probs = bundled_problems(scenario, r, records)
+    if probs:
+        clause, detail = probs[0]
+        raise Violation(clause, case_of(scenario, schedule, r, {'policy': policy}), detail)
+    if stats is not None:
+        stats.evaluated()
+        logs = json.loads(r.output_text)['logs']
+        played = [lg for lg in logs if lg['play_history'] is not None]
+        stats.cls('bundled sessions')
+        if played:
+            stats.cls('bundled sessions with a played board')
+            if any(lg['contract'].endswith('X') for lg in played):
+                stats.cls('bundled: doubled contract')
+            nonseq = schedule.get('kind') != 'sequential' or schedule.get('stalls')
+            if nonseq:
+                stats.nt(['b', scenario, policy], {'contracts': [[lg['contract'], lg['declarer'], lg['taken_trick']] for lg in logs],
+                                                    'schedule_kind': schedule['kind']} if len(logs) <= 2 else None)
+        else:
+            stats.cls('bundled sessions all passed out')
+    return r
+
+
+def run_shard_c11(spec, seed, tier, stats):
+    v = run_hypothesis(lambda scenario, schedule, policy: check_bundled(scenario, schedule, policy, stats),
+                       {'scenario': bundled_scenario(spec['max_boards']), 'schedule': SCHEDULE(), 'policy': POLICY},
+                       seed, spec['n'], tier == 'thorough')
+    return [v] if v else []
+
+
+# ---------------------------------------------------------------------------------------
+# C19(b): board headers and Teams lines as built by the running server
+
+@st.composite
+def header_scenario(draw):
+    n = draw(st.integers(1, 12))
+    boards = [{'id': str(i + 1), 'dealer': draw(st.integers(0, 3)), 'vul': draw(st.sampled_from(['None', 'NS', 'EW', 'Both'])),
+               'owner': [c // 13 for c in range(52)], 'dda': None, 'calls': [A.PASS] * 4, 'cards': []} for i in range(n)]
+    return {'boards': boards, 'teams': [draw(GS.TEAM), draw(GS.TEAM)], 'arrival': draw(st.permutations([0, 1, 2, 3])), 'fmt': {}}
 
 
 def plan_c19(tier):
-    return []
+    n, per = (4, 60) if tier == 'quick' else (6, 3000)
+    return [{'kind': 'server_built', 'n': per} for _ in range(n)]
+
+
+def check_server_built(scenario, schedule, stats=None):
+    from bridge_env.network_bridge.client import Client
+    r = run_case(scenario, schedule)
+    case = case_of(scenario, schedule, r)
+    if r.outcome.status != 'completed' or r.server_exc is not None or r.client_exc:
+        first_problem(completion_problems(scenario, r), scenario, schedule, r)
+    for s in range(4):
+        lines = [t for d, t in r.client_logs[s] if d == '<' and t is not None]
+        teams_lines = [t for t in lines if t.lower().startswith('teams')]
+        check(len(teams_lines) == 1, 'no Teams line was sent', case, {'seat': A.SEATS[s]})
+        try:
+            got = Client.parse_team_names(teams_lines[0])
+        except Exception as e:  # noqa
+            raise Violation("client cannot parse the server's Teams line", case, {'line': teams_lines[0], 'exception': repr(e)[:200]})
+        check(tuple(got) == tuple(scenario['teams']), "client understands the server's Teams line as different team names", case,
+              {'line': teams_lines[0], 'got': list(got), 'expected': scenario['teams']})
+        heads = [t for t in lines if t.lower().startswith('board number')]
+        check(len(heads) == len(scenario['boards']), 'a board header is missing', case, {'seat': A.SEATS[s], 'headers': len(heads)})
+        for i, (t, b) in enumerate(zip(heads, scenario['boards'])):
+            try:
+                num, dealer, vul = Client.parse_board(t)
+            except Exception as e:  # noqa
+                raise Violation("client cannot parse the server's board header", case, {'line': t, 'exception': repr(e)[:200]})
+            check(num == i + 1 and dealer is be.SEAT[b['dealer']] and vul is be.VUL[b['vul']],
+                  "client understands the server's board header as a different board", case,
+                  {'line': t, 'got': [num, repr(dealer), repr(vul)], 'expected': [i + 1, A.SEATS[b['dealer']], b['vul']]})
+            if stats is not None:
+                stats.evaluated()
+                stats.cls(f'server-built header: board number {"1-3" if i < 3 else "4-12"}')
+    if stats is not None:
+        stats.evaluated()
+        t = scenario['teams']
+        if any(ord(ch) > 127 or ch == ' ' for ch in t[0] + t[1]):
+            stats.cls('server-built Teams line with non-ASCII or blank-containing team name')
+            stats.nt(['teams', t, len(scenario['boards'])], {'teams': t, 'line': [x for d, x in r.client_logs[0] if d == '<'][1]} if len(t[0]) < 6 else None)
+
+
+def run_shard_c19(spec, seed, tier, stats):
+    v = run_hypothesis(lambda scenario, schedule: check_server_built(scenario, schedule, stats),
+                       {'scenario': header_scenario(), 'schedule': SCHEDULE()}, seed, spec['n'], tier == 'thorough')
+    return [v] if v else []
